@@ -2,6 +2,7 @@
 import BV.Common.Hex
 import BV.Common.Sha256
 import BV.C20.Pmt
+import BV.C20.PmtWire
 namespace BV.C20.DriverPmt
 open BV.Hex BV.C20.Pmt
 
@@ -41,7 +42,28 @@ def handle : List String → String
       let x : Bool := match extract hh n flags mb.hashes with
         | some (r, m) => r == root && m == want
         | none => false
-      s!"idx={natsTok mb.matchedIdx} tx={mb.numTx} flags={listToHex flags} hashes={",".intercalate (mb.hashes.map listToHex)} root={listToHex root} x={if x then "1" else "0"}"
+      -- the block header the harness gives the block: version 1, zero prev, merkle root, time = seed,
+      -- bits 0x1d00ffff, nonce = n
+      let hdr := le 1 4 ++ List.replicate 32 0 ++ root ++ le seed 4 ++ le 0x1d00ffff 4 ++ le n 4
+      let wire := match PmtWire.encode 70016 ⟨hdr, mb.numTx, mb.hashes, flags⟩ with
+        | .ok b => listToHex (BV.Sha256.hash2List b)
+        | .error _ => "err"
+      s!"idx={natsTok mb.matchedIdx} tx={mb.numTx} flags={listToHex flags} hashes={",".intercalate (mb.hashes.map listToHex)} root={listToHex root} x={if x then "1" else "0"} wire={wire}"
+    | _, _ => "bad-op"
+  | ["pmtw", pver, d] =>
+    match pver.toNat?, hexToList? d with
+    | some pver, some d =>
+      match PmtWire.decode pver d with
+      | .error .pver => "err:pver"
+      | .error .eof => "err:eof"
+      | .error .nonCanonical => "err:noncanon"
+      | .error .tooManyHashes => "err:toomanyhashes"
+      | .error .tooManyFlags => "err:toomanyflags"
+      | .ok (m, rest) =>
+        let re := match PmtWire.encode pver m with
+          | .ok b => b ++ rest == d
+          | .error _ => false
+        s!"ok tx={m.transactions} nh={m.hashes.length} nf={m.flags.length} rest={rest.length} re={if re then "1" else "0"} h={listToHex (BV.Sha256.hashList (m.header ++ m.hashes.flatten ++ m.flags))}"
     | _, _ => "bad-op"
   | _ => "bad-op"
 
